@@ -324,3 +324,74 @@ func Synth(t *rapid.T) oracle.State {
 	}
 	return oracle.State{Pos: p, Half: rapid.SampledFrom([]int{0, 0, 3, 50, 99}).Draw(t, "shalf"), Full: rapid.SampledFrom([]int{1, 1, 12, 77}).Draw(t, "sfull")}
 }
+
+// EPCheck draws a position in which the side to move is in check from a pawn that has just
+// made its double step, with an own pawn beside it that may capture en passant, and a
+// crowded king neighbourhood (so that the e.p. capture is sometimes the only legal move).
+func EPCheck(t *rapid.T) oracle.State {
+	for try := 0; ; try++ {
+		var p oracle.Pos
+		p.White = true
+		f := rapid.IntRange(0, 7).Draw(t, "epfile")
+		dk := rapid.SampledFrom([]int{-1, 1}).Draw(t, "kingside")
+		dp := rapid.SampledFrom([]int{-1, 1}).Draw(t, "pawnside")
+		if f+dk < 0 || f+dk > 7 || f+dp < 0 || f+dp > 7 {
+			continue
+		}
+		p.Sq[oracle.Sq(f, 4)] = -oracle.Pawn // just arrived from rank 7
+		p.EP = int8(oracle.Sq(f, 5))
+		wk := oracle.Sq(f+dk, 3)
+		p.Sq[wk] = oracle.King
+		p.Sq[oracle.Sq(f+dp, 4)] = oracle.Pawn
+		// black king far enough away
+		var cands []int
+		for s := 0; s < 64; s++ {
+			df, dr := oracle.File(s)-oracle.File(wk), oracle.Rank(s)-oracle.Rank(wk)
+			if p.Sq[s] == 0 && (df < -1 || df > 1 || dr < -1 || dr > 1) && s != oracle.Sq(f, 5) && s != oracle.Sq(f, 6) {
+				cands = append(cands, s)
+			}
+		}
+		p.Sq[cands[rapid.IntRange(0, len(cands)-1).Draw(t, "bk")]] = -oracle.King
+		// crowd the king: own blockers and enemy guards
+		for _, d := range [][2]int{{1, 0}, {1, 1}, {0, 1}, {-1, 1}, {-1, 0}, {-1, -1}, {0, -1}, {1, -1}} {
+			nf, nr := oracle.File(wk)+d[0], oracle.Rank(wk)+d[1]
+			if nf < 0 || nf > 7 || nr < 0 || nr > 7 {
+				continue
+			}
+			s := oracle.Sq(nf, nr)
+			if p.Sq[s] != 0 || s == oracle.Sq(f, 5) || s == oracle.Sq(f, 6) {
+				continue
+			}
+			switch rapid.IntRange(0, 3).Draw(t, "crowd") {
+			case 0, 1:
+				pc := rapid.SampledFrom([]int8{oracle.Pawn, oracle.Knight, oracle.Bishop, oracle.Rook}).Draw(t, "blocker")
+				if pc == oracle.Pawn && (nr == 0 || nr == 7) {
+					pc = oracle.Knight
+				}
+				p.Sq[s] = pc
+			}
+		}
+		for i, n := 0, rapid.IntRange(0, 5).Draw(t, "guards"); i < n; i++ {
+			var empty []int
+			for s := 0; s < 64; s++ {
+				if p.Sq[s] == 0 && s != oracle.Sq(f, 5) && s != oracle.Sq(f, 6) {
+					empty = append(empty, s)
+				}
+			}
+			s := empty[rapid.IntRange(0, len(empty)-1).Draw(t, "gsq")]
+			pc := rapid.SampledFrom([]int8{oracle.Queen, oracle.Rook, oracle.Bishop, oracle.Knight, oracle.Pawn}).Draw(t, "guard")
+			if pc == oracle.Pawn && (oracle.Rank(s) == 0 || oracle.Rank(s) == 7) {
+				pc = oracle.Knight
+			}
+			p.Sq[s] = -pc
+		}
+		if p.InCheck(false) {
+			continue
+		}
+		st := oracle.State{Pos: p, Half: 0, Full: 20}
+		if rapid.Bool().Draw(t, "mirror") {
+			st.Pos = p.Mirror()
+		}
+		return st
+	}
+}
